@@ -71,7 +71,8 @@ static void res_prepare(res_t *r, size_t cap) {
 static void res_finish(res_t *r, size_t cap) {
 	size_t i;
 	r->code = vh_code();
-	for (i = 0; i < cap && i < MAXB; i++) if (r->out[i] != FILL) r->touched = 1;
+	/* touched: 0 = output area as it was, 1 = only zero bytes were stored, 2 = other data was stored */
+	for (i = 0; i < cap && i < MAXB; i++) if (r->out[i] != FILL) { if (r->out[i] != 0) r->touched = 2; else if (!r->touched) r->touched = 1; }
 	for (i = cap; i < MAXB + 16; i++) if (r->out[i] != FILL) r->over = 1;
 }
 /* run f(r, ctx) here, or in a forked child reporting through a pipe */
@@ -595,8 +596,8 @@ static void curve_hdr(void) {
 	ep_curve_get_cof(n); vh_bn("h", n);
 	ep_free(g); bn_free(n);
 }
-static bn_t DA, DB, EA, EB_;
-static ep_t QA, QB, RA, RB, RM;
+static bn_t DA, DB, EA, EB_, ID;
+static ep_t QA, QB, RA, RB, RM, IQ;
 
 static void do_ecdh(void) {
 	int id = atoi(vh_tok[1]), klen = atoi(vh_tok[3]), e[6], r[6];
@@ -649,8 +650,8 @@ static void do_ecmqv(void) {
 /* ECIES */
 static char ecies_key[128];
 typedef struct { const uint8_t *in; size_t len; ep_st *r; } ecies_ctx;
-static void call_ecies_enc(res_t *r, void *c) { ecies_ctx *b = c; VH_TRY(r->err, r->ret = cp_ecies_enc(b->r, r->out, &r->olen, b->in, b->len, QA)); }
-static void call_ecies_dec(res_t *r, void *c) { ecies_ctx *b = c; VH_TRY(r->err, r->ret = cp_ecies_dec(r->out, &r->olen, b->r, b->in, b->len, DA)); }
+static void call_ecies_enc(res_t *r, void *c) { ecies_ctx *b = c; VH_TRY(r->err, r->ret = cp_ecies_enc(b->r, r->out, &r->olen, b->in, b->len, IQ)); }
+static void call_ecies_dec(res_t *r, void *c) { ecies_ctx *b = c; VH_TRY(r->err, r->ret = cp_ecies_dec(r->out, &r->olen, b->r, b->in, b->len, ID)); }
 static int ecies_ksz(void) { return RLC_CEIL(RLC_MAX(128, ec_param_level()), 8); }
 
 static void flip_coord(fp_t c, long bit) {
@@ -673,9 +674,9 @@ static void do_ecies(void) {
 		int err, ret = -1;
 		strcpy(ecies_key, key);
 		reseed(vh_tok[2]);
-		VH_TRY(err, ret = cp_ecies_gen(DA, QA));
+		VH_TRY(err, ret = cp_ecies_gen(ID, IQ));
 		vh_begin("ec_gen");
-		curve_hdr(); vh_str("fn", "cp_ecies_gen"); vh_bn("d", DA); ptv("Q", QA);
+		curve_hdr(); vh_str("fn", "cp_ecies_gen"); vh_bn("d", ID); ptv("Q", IQ);
 		vh_int("ret", ret); vh_int("err", err); vh_int("code", vh_code());
 		vh_end();
 	}
@@ -688,7 +689,7 @@ static void do_ecies(void) {
 	run_call(call_ecies_enc, &b, &r, cap, 0);
 	vh_begin("ecies_enc");
 	curve_hdr(); vh_int("ksz", ksz); vh_int("mdl", (long)RLC_MD_LEN);
-	vh_bn("d", DA); ptv("Q", QA); ptv("R", RA); vh_bytes("m", msg, mlen);
+	vh_bn("d", ID); ptv("Q", IQ); ptv("R", RA); vh_bytes("m", msg, mlen);
 	res_out(&r, cap);
 	vh_end();
 	clen = 0;
@@ -698,7 +699,7 @@ static void do_ecies(void) {
 	run_call(call_ecies_dec, &b, &r, MAXB, 0);
 	vh_begin("ecies_dec");
 	curve_hdr(); vh_int("ksz", ksz); vh_int("mdl", (long)RLC_MD_LEN);
-	vh_bn("d", DA); ptv("R", RA); vh_str("mut", "honest"); vh_int("honest", 1); vh_bytes("m0", msg, mlen); vh_bytes("c", ct, clen);
+	vh_bn("d", ID); ptv("R", RA); vh_str("mut", "honest"); vh_int("honest", 1); vh_bytes("m0", msg, mlen); vh_bytes("c", ct, clen);
 	res_out(&r, MAXB);
 	vh_end();
 	for (i = 6; i < vh_ntok; i++) {
@@ -720,7 +721,7 @@ static void do_ecies(void) {
 			uint8_t kk[64], zz[RLC_FC_BYTES + 1]; int zl; bn_t x; ep_t p;
 			if (clen < (size_t)RLC_MD_LEN + 32) continue;
 			bn_null(x); ep_null(p); bn_new(x); ep_new(p);
-			ep_mul(p, RA, DA); ep_norm(p, p); fp_prime_back(x, p->x);
+			ep_mul(p, RA, ID); ep_norm(p, p); fp_prime_back(x, p->x);
 			zl = bn_size_bin(x); if (bn_bits(x) % 8 == 0) zl++;
 			bn_write_bin(zz, zl, x);
 			md_kdf(kk, 2 * ksz, zz, zl);
@@ -735,7 +736,7 @@ static void do_ecies(void) {
 		run_call(call_ecies_dec, &b, &r, dcap, 1);
 		vh_begin("ecies_dec");
 		curve_hdr(); vh_int("ksz", ksz); vh_int("mdl", (long)RLC_MD_LEN);
-		vh_bn("d", DA); ptv("R", RM); vh_str("mut", mut); vh_int("honest", honest); vh_bytes("m0", msg, honest ? mlen : 0);
+		vh_bn("d", ID); ptv("R", RM); vh_str("mut", mut); vh_int("honest", honest); vh_bytes("m0", msg, honest ? mlen : 0);
 		vh_bytes("c", ct2, (size_t)l);
 		res_out(&r, dcap);
 		vh_end();
@@ -772,9 +773,9 @@ int main(int argc, char **argv) {
 	}
 #endif
 #if defined(WITH_CP) && defined(WITH_EC) && defined(WITH_EP)
-	bn_null(DA); bn_null(DB); bn_null(EA); bn_null(EB_); bn_new(DA); bn_new(DB); bn_new(EA); bn_new(EB_);
-	ep_null(QA); ep_null(QB); ep_null(RA); ep_null(RB); ep_null(RM);
-	ep_new(QA); ep_new(QB); ep_new(RA); ep_new(RB); ep_new(RM);
+	bn_null(DA); bn_null(DB); bn_null(EA); bn_null(EB_); bn_null(ID); bn_new(DA); bn_new(DB); bn_new(EA); bn_new(EB_); bn_new(ID);
+	ep_null(QA); ep_null(QB); ep_null(RA); ep_null(RB); ep_null(RM); ep_null(IQ);
+	ep_new(QA); ep_new(QB); ep_new(RA); ep_new(RB); ep_new(RM); ep_new(IQ);
 #endif
 	pc_setup();
 	(void)i;
